@@ -315,6 +315,105 @@ theorem strCatItem_lawful : Lawful strCatItem where
     | none => rfl
     | some o => exact str_pa_modify r o a
 
+/-! ### `flipZ` / `flipB` -/
+
+theorem flipObs_op (a b : Int × Int) :
+    flipObs (a.1 + b.1, a.2 + b.2) = ((flipObs a).1 + (flipObs b).1, (flipObs a).2 + (flipObs b).2) := by
+  apply Prod.ext <;> (simp only [flipObs]; try omega)
+
+theorem flipObs_flipObs (a : Int × Int) : flipObs (flipObs a) = a := by
+  obtain ⟨x, y⟩ := a
+  apply Prod.ext <;> (simp only [flipObs]; try omega)
+
+theorem flip_pa (x : Flip) (a : Int × Int) :
+    (if x.flip.fl then flipObs a else a) = flipObs (if x.fl then flipObs a else a) := by
+  obtain ⟨o, n, fl⟩ := x
+  cases fl <;> simp [Flip.flip, flipObs_flipObs]
+
+theorem flipZItem_lawful : Lawful flipZItem where
+  op_assoc := by intro a b c; simp only [flipZItem, Prod.mk.injEq]; omega
+  act_op := by intro m a b; exact flipObs_op a b
+  val_modify := by intro x m; rfl
+  pa_modify := by intro x m a; exact flip_pa x a
+  pa_op := by
+    intro x a b
+    obtain ⟨o, n, fl⟩ := x
+    cases fl
+    · rfl
+    · exact flipObs_op a b
+  val_merge := by intro x y; rfl
+  pa_merge := by intro x y a; rfl
+  val_update := by intro _ x y; rfl
+  pa_update := by intro _ x y a; rfl
+  push_val0 := by intro p l r; obtain ⟨o, n, fl⟩ := p; cases fl <;> rfl
+  push_pa0 := by intro p l r a; obtain ⟨o, n, fl⟩ := p; cases fl <;> rfl
+  push_val1 := by intro p l r; obtain ⟨o, n, fl⟩ := p; cases fl <;> rfl
+  push_pa1 := by
+    intro p l r a; obtain ⟨o, n, fl⟩ := p
+    cases fl
+    · rfl
+    · exact flip_pa l a
+  push_val2 := by intro p l r; obtain ⟨o, n, fl⟩ := p; cases fl <;> rfl
+  push_pa2 := by
+    intro p l r a; obtain ⟨o, n, fl⟩ := p
+    cases fl
+    · rfl
+    · exact flip_pa r a
+
+theorem flipBItem_lawful : Lawful flipBItem where
+  op_assoc := by intro a b c; simp only [flipBItem, Prod.mk.injEq]; omega
+  act_op := by
+    intro m a b
+    show (if m % 2 = 1 then flipObs (a.1 + b.1, a.2 + b.2) else (a.1 + b.1, a.2 + b.2)) =
+      ((if m % 2 = 1 then flipObs a else a).1 + (if m % 2 = 1 then flipObs b else b).1,
+       (if m % 2 = 1 then flipObs a else a).2 + (if m % 2 = 1 then flipObs b else b).2)
+    by_cases h : m % 2 = 1
+    · simp only [h, if_true]; exact flipObs_op a b
+    · simp only [h, if_false]
+  val_modify := by
+    intro x m
+    show ((if m % 2 = 1 then x.flip else x).ones, (if m % 2 = 1 then x.flip else x).len) =
+      (if m % 2 = 1 then flipObs (x.ones, x.len) else (x.ones, x.len))
+    by_cases h : m % 2 = 1 <;> simp [h, Flip.flip, flipObs]
+  pa_modify := by
+    intro x m a
+    show (if (if m % 2 = 1 then x.flip else x).fl then flipObs a else a) =
+      (if m % 2 = 1 then flipObs (if x.fl then flipObs a else a) else (if x.fl then flipObs a else a))
+    by_cases h : m % 2 = 1
+    · simp only [h, if_true]; exact flip_pa x a
+    · simp only [h, if_false]
+  pa_op := by
+    intro x a b
+    obtain ⟨o, n, fl⟩ := x
+    cases fl
+    · rfl
+    · exact flipObs_op a b
+  val_merge := by intro x y; rfl
+  pa_merge := by intro x y a; rfl
+  val_update := by intro _ x y; rfl
+  pa_update := by intro _ x y a; rfl
+  push_val0 := by intro p l r; obtain ⟨o, n, fl⟩ := p; cases fl <;> rfl
+  push_pa0 := by intro p l r a; obtain ⟨o, n, fl⟩ := p; cases fl <;> rfl
+  push_val1 := by intro p l r; obtain ⟨o, n, fl⟩ := p; cases fl <;> rfl
+  push_pa1 := by
+    intro p l r a; obtain ⟨o, n, fl⟩ := p
+    cases fl
+    · rfl
+    · exact flip_pa l a
+  push_val2 := by intro p l r; obtain ⟨o, n, fl⟩ := p; cases fl <;> rfl
+  push_pa2 := by
+    intro p l r a; obtain ⟨o, n, fl⟩ := p
+    cases fl
+    · rfl
+    · exact flip_pa r a
+
+theorem flipItems_dflt (a : Int × Int) :
+    (flipZItem.op (flipZItem.val flipZItem.dflt) a = a ∧ flipZItem.op a (flipZItem.val flipZItem.dflt) = a) ∧
+    (flipBItem.op (flipBItem.val flipBItem.dflt) a = a ∧ flipBItem.op a (flipBItem.val flipBItem.dflt) = a) := by
+  have h1 : ((0 : Int) + a.1, (0 : Int) + a.2) = a := by simp
+  have h2 : (a.1 + (0 : Int), a.2 + (0 : Int)) = a := by simp
+  exact ⟨⟨h1, h2⟩, ⟨h1, h2⟩⟩
+
 /-! ### `Default` is the identity of `merge` (up to the observable value) on the values that occur -/
 
 theorem minItem_dflt_left (a : Int) (h : a ≤ i64Max) : minItem.op (minItem.val minItem.dflt) a = a := by
